@@ -54,8 +54,7 @@ var pGrid = []float64{1e-6, 1e-3, .01, .1, .25, .5, .75, .9, .99, 1 - 1e-3, 1 - 
 func genUV(gen *vlib.G) {
 	for _, sp := range uvSpecs() {
 		sp := sp
-		// the identities are cheap: both tiers use the full parameter grid (the tiers differ in uv-rand)
-		for _, p := range sp.grid(true) {
+		for _, p := range sp.grid(gen.Thorough()) {
 			p := p
 			gen.Case(pkey(sp, p), func(t *vlib.T) { checkUV(t, sp, p) })
 		}
@@ -68,7 +67,7 @@ func genUV(gen *vlib.G) {
 func genUVFit(gen *vlib.G) {
 	for _, sp := range uvSpecs() {
 		sp := sp
-		for _, p := range sp.grid(true) {
+		for _, p := range sp.grid(gen.Thorough()) {
 			p := p
 			d := sp.mk(p, nil)
 			if _, ok := reflect.PointerTo(reflect.TypeOf(d)).MethodByName("Fit"); !ok {
